@@ -113,6 +113,19 @@ Example C20_validator_nonvacuous :
   validate_rsv (VC true true true) 1024 true (RSV 4 [0; 2] [1065353216; 1073741824]) = true.
 Proof. reflexivity. Qed.
 
+(* a BlockRequest the validator accepts (arithmetic regenerated from the source, on u64) asks for an ordered range
+   of at most max_blocks_per_request blocks -- "decoders never accept more than their declared limits" *)
+Theorem C20_block_request_within_limit : forall maxb f t, f < W64 -> t < W64 -> maxb < W64 - 1 ->
+  validate_block_req gen_block_order_checked gen_block_count maxb f t = true -> f <= t /\ t - f + 1 <= maxb.
+Proof.
+  destruct gen_block_request_ok as [E Hc]. rewrite E. exact (block_req_sound gen_block_count Hc).
+Qed.
+(* with wrapping arithmetic the full range 0 ..= u64::MAX would count as 0 blocks and be accepted *)
+Theorem C20_block_request_wrapping_refuted :
+  let count := fun f t => (((t + W64 - f) mod W64) + 1) mod W64 in
+  validate_block_req true count 1000 0 (W64 - 1) = true /\ ~ ((W64 - 1) - 0 + 1 <= 1000).
+Proof. exact block_req_wrapping_refuted. Qed.
+
 (* non-vacuity of the hypotheses used above *)
 Example C20_nonvacuous :
   u64s [0; 5; 3; 18446744073709551615; 3] /\ N.of_nat (length [1; 1; 2]) < W32 /\
@@ -121,6 +134,8 @@ Proof. split; [repeat constructor|split; reflexivity]. Qed.
 
 Print Assumptions C20_frame_v2_unframed_refuted.
 Print Assumptions C20_validated_vector_is_safe.
+Print Assumptions C20_block_request_within_limit.
+Print Assumptions C20_block_request_wrapping_refuted.
 Print Assumptions C20_validator_without_length_check_refuted.
 Print Assumptions C20_validator_skipping_first_position_refuted.
 Print Assumptions C20_varint_roundtrip.
